@@ -666,6 +666,11 @@ impl XferMon {
         let faf = *self.final_ack_faulted.get(&spec.client).unwrap_or(&false);
         let mut viol: Option<(String, String)> = None;
         let mut inconclusive = false;
+        // negotiated values are bound per request: with several workers for one client they may be mixed up
+        let only_worker_of_client = {
+            let x = self.tr[&task].x;
+            self.tr.values().filter(|o| o.x == x).count() == 1
+        };
         {
             let t = self.tr.get_mut(&task).unwrap();
             t.ended = true;
@@ -686,6 +691,13 @@ impl XferMon {
                 viol = Some((
                     "ended_before_final_block".into(),
                     format!("task{task} treated block {} as the final one and ended, but the upload has {} blocks (a block reached it shorter than it was sent)", t.inorder, n_final_here),
+                ));
+            }
+            if (rules.c07 || rules.c02 || rules.c04) && viol.is_none() && kind == Kind::Upload && panic.is_none() && !t.fs_cleanup_seen && !t.final_received && !t.error_seen && only_worker_of_client {
+                // the receive worker took its success path (no clean-up step) although the final block never reached it in sequence
+                viol = Some((
+                    "success_without_final_block".into(),
+                    format!("task{task} ended reporting the upload as received after {} in-sequence blocks, none of them shorter than blksize {}: the final block never arrived (last ACK emitted: {})", t.inorder, t.neg.b, t.acked_last),
                 ));
             }
             let ended_ok = match kind {
@@ -821,6 +833,8 @@ impl Monitor for XferMon {
                     tr.send_failed = true;
                 }
             }
+            // a failing disk excuses any failure of the transfer (never a wrong acknowledgement)
+            Ev::DiskWrite { fault: Some(_), .. } => self.fault_weight += 100,
             Ev::Stall { .. } => self.fault_weight += 4 + self.specs.iter().map(|s| s.timeout_ratio).max().unwrap_or(1).max(1),
             Ev::RecvRet { res: crate::world::RecvRes::Err(std::io::ErrorKind::Interrupted), .. } => self.fault_weight += 1,
             Ev::End { task, panic } => return self.on_end(w, *task, panic),
